@@ -417,6 +417,11 @@ def getitem(interp: Interp, st: St, obj: V, key: V):
     if all(interp.is_concrete_like(a) for a in allv) and interp.common_root(allv) not in (False,):
         yield from interp.shadow_apply(st, operator.getitem, allv, name="getitem")
         return
+    if key.shadow is not None and key.root is not None:
+        fo = frozen_const(interp, st, obj)
+        if fo is not None:
+            yield from interp.shadow_apply(st, operator.getitem, [const(fo), key], name="getitem")
+            return
     h = HANDLERS.get("$getitem_symbolic")
     if h is not None:
         yield from h(interp, st, obj, key)
@@ -472,9 +477,50 @@ def m_extend(interp, st, selfv, args, kwargs):
 
 @handler(("$method", "items"))
 def m_items(interp, st, selfv, args, kwargs):
+    h = st.heap[selfv.d]
+    if isinstance(h, HDict) and h.pairs is not None:
+        yield st, ("ok", V("tuple", [V("tuple", [k, vv]) for k, vv in h.pairs]))
+        return
     v = V("sym", t=interp.ctx.fresh_val("items"))
     v.tag = ("hdict_items", selfv.d)
     yield st, ("ok", v)
+
+
+@handler(("$method", "keys"))
+def m_keys(interp, st, selfv, args, kwargs):
+    h = st.heap[selfv.d]
+    if isinstance(h, HDict) and h.pairs is not None:
+        yield st, ("ok", V("tuple", [k for k, _ in h.pairs]))
+        return
+    raise Unsupported("keys() of a symbolic dict")
+
+
+@handler(("$method", "values"))
+def m_values(interp, st, selfv, args, kwargs):
+    h = st.heap[selfv.d]
+    if isinstance(h, HDict) and h.pairs is not None:
+        yield st, ("ok", V("tuple", [vv for _, vv in h.pairs]))
+        return
+    raise Unsupported("values() of a symbolic dict")
+
+
+def frozen_const(interp, st, v: V):
+    """python object for a heap list/dict whose content is entirely constant (used with per-cell shadows)"""
+    if v.kind == "const" and v.shadow is None:
+        return v.d
+    if v.kind == "tuple" and all(x.kind == "const" and x.shadow is None for x in v.d):
+        return tuple(x.d for x in v.d)
+    if v.kind == "ref":
+        h = st.heap[v.d]
+        if isinstance(h, HDict) and h.pairs is not None and all(
+                k.kind == "const" and k.shadow is None and vv.kind == "const" and vv.shadow is None for k, vv in h.pairs):
+            try:
+                return {k.d: vv.d for k, vv in h.pairs}
+            except TypeError:
+                return None
+        if isinstance(h, HList) and h.items is not None and all(x.kind == "const" and x.shadow is None for x in h.items):
+            return [x.d for x in h.items]
+    return None
 
 
 @handler(("$method", "get"))
@@ -496,11 +542,16 @@ def m_get(interp, st, selfv, args, kwargs):
     raise Unsupported("dict.get on symbolic dict")
 
 
+def _finite_const(o):
+    from .loops import is_finite_const_iterable
+    return is_finite_const_iterable(o)
+
+
 def iterate_concrete(interp, st, v: V):
     """yield (st, ('ok', [V...])) for iterables of statically known length."""
     if v.kind == "tuple":
         yield st, ("ok", list(v.d))
-    elif v.kind == "const" and isinstance(v.d, (tuple, list, frozenset, set, dict, str, range)):
+    elif v.kind == "const" and _finite_const(v.d):
         yield st, ("ok", [const(x) for x in v.d])
     elif v.kind == "ref" and isinstance(st.heap[v.d], HList) and st.heap[v.d].items is not None:
         yield st, ("ok", list(st.heap[v.d].items))
@@ -635,6 +686,22 @@ def contains(interp: Interp, st: St, x: V, coll: V, negate=False):
     """x in coll"""
     def out(s, e):
         return s, ("ok", V("bool", z3.Not(e) if negate else e))
+    if x.kind == "const" and x.shadow is None and coll.kind != "const":
+        fo = frozen_const(interp, st, coll)
+        if fo is not None:
+            try:
+                r = x.d in fo
+            except Exception as e:  # noqa: BLE001
+                yield st, (RAISE, interp.exc_from_instance(st, e))
+                return
+            yield st, ("ok", const((not r) if negate else r))
+            return
+    if x.shadow is not None and x.root is not None and coll.kind != "const":
+        fo = frozen_const(interp, st, coll)
+        if fo is not None:
+            fn = (lambda a, b: a not in b) if negate else (lambda a, b: a in b)
+            yield from interp.shadow_apply(st, fn, [x, const(fo)], name="contains")
+            return
     if coll.kind == "tuple" or (coll.kind == "const" and isinstance(coll.d, (tuple, list, set, frozenset))):
         items = coll.d if coll.kind == "tuple" else [const(i) for i in coll.d]
         if coll.kind == "const" and isinstance(coll.d, (set, frozenset)):
@@ -805,7 +872,9 @@ def b_len(interp, st, args, kwargs):
     if x.shadow is not None and x.root is not None:
         # exception column probed; value column: len(x) == seq_len(x) for every sized builtin container
         for s, r in interp.shadow_apply(st, len, [x], name="len"):
-            if r[0] == "ok":
+            if r[0] == "ok" and interp.prefer_shadow:
+                yield s, r
+            elif r[0] == "ok":
                 interp.ctx.assume_note("len(x) equals the number of elements iteration over x yields (builtin sized containers)")
                 yield s, ("ok", V("int", T.F_len(interp.term(s, x))))
             else:
@@ -925,7 +994,7 @@ def consume(interp: Interp, st: St, x: V):
     if x.kind == "tuple":
         yield st, ("ok", ("items", list(x.d)))
         return
-    if x.kind == "const" and isinstance(x.d, (tuple, list, frozenset, set, dict, str, range)):
+    if x.kind == "const" and _finite_const(x.d):
         yield st, ("ok", ("items", [const(i) for i in x.d]))
         return
     if x.kind == "ref":
@@ -1006,6 +1075,9 @@ def _ctor_handler(pycls):
                 yield st, ("ok", const(pycls(x.d)))
             except Exception as e:  # noqa: BLE001
                 yield st, (RAISE, interp.exc_from_instance(st, e))
+            return
+        if interp.prefer_shadow and x.shadow is not None and x.root is not None:
+            yield from interp.shadow_apply(st, pycls, [x], name=pycls.__name__)
             return
         for s, r in consume(interp, st, x):
             if r[0] != "ok":
